@@ -312,6 +312,13 @@ def _tiling(ctx, p, evs, sel, claim_call, h):
     b = range_bounds(outer["iter"]) if outer["iter"] else None
     ok = b is not None and is_const(b[0]) and is_const(b[1]) and \
         list(range(b[0][1], b[1][1])) == [1, 2, 3]
+    if not ok and outer["iter"] is not None:
+        it0 = outer["iter"]
+        if it0[0] == "const" and isinstance(it0[1], tuple):
+            it0 = ("tuple", tuple(("const", x) for x in it0[1]))
+        if it0[0] == "tuple" and [x[1] for x in it0[1] if is_const(x)] == [1, 2, 3] and \
+                len(it0[1]) == 3:
+            ok = True      # the sizes spelled out as a constant (1, 2, 3)
     if not ok and any(isinstance(e.get("site"), tuple) and e["site"][2] >= 1000
                       for e in evs[i0:i1]):
         # the size loop runs over a constant tuple and was unrolled: the
